@@ -88,6 +88,13 @@ func (p *Program) classifyBody(v ssa.Value, seen map[ssa.Value]bool) bodyClass {
 			if i == 0 {
 				first = c
 			} else if c.kind != first.kind {
+				// no body on one path, a private copy on the other: private either way
+				if (c.kind == "nil" && first.kind == "copy") || (c.kind == "copy" && first.kind == "nil") {
+					if c.kind == "copy" {
+						first = c
+					}
+					continue
+				}
 				return bodyClass{kind: "mixed", path: first.kind + "/" + c.kind}
 			}
 		}
@@ -405,11 +412,34 @@ func runMonitorCopy(p *Program, r *RuleResult) {
 					r.add(name, construct, Undecided, p.instrPos(s), "cannot find the process carried by the update")
 					continue
 				}
-				// *NewProcess(body, ...)
+				// *NewProcess(body, ...), here or in a snapshot helper all of whose returns are
+				// such a freshly built process
 				var body ssa.Value
-				if ld, ok := procVal.(*ssa.UnOp); ok {
-					if c, ok := ld.X.(*ssa.Call); ok && c.Common().StaticCallee() != nil && c.Common().StaticCallee().Name() == "NewProcess" {
-						body = c.Common().Args[0]
+				bodyFn := fn
+				newProcBody := func(v ssa.Value) ssa.Value {
+					if ld, ok := v.(*ssa.UnOp); ok {
+						if c, ok := ld.X.(*ssa.Call); ok && c.Common().StaticCallee() != nil && c.Common().StaticCallee().Name() == "NewProcess" {
+							return c.Common().Args[0]
+						}
+					}
+					return nil
+				}
+				body = newProcBody(procVal)
+				if hc, ok := procVal.(*ssa.Call); ok && body == nil {
+					if h := hc.Common().StaticCallee(); h != nil && p.isFirstParty(h) && h.Blocks != nil {
+						var only ssa.Value
+						nRet := 0
+						for _, hb := range h.Blocks {
+							for _, hin := range hb.Instrs {
+								if ret, ok := hin.(*ssa.Return); ok && len(ret.Results) == 1 {
+									nRet++
+									only = newProcBody(ret.Results[0])
+								}
+							}
+						}
+						if nRet == 1 && only != nil {
+							body, bodyFn = only, h
+						}
 					}
 				}
 				if body == nil {
@@ -417,7 +447,7 @@ func runMonitorCopy(p *Program, r *RuleResult) {
 					continue
 				}
 				bc := p.classifyBody(body, map[ssa.Value]bool{})
-				if bc.kind == "nil" || (bc.kind == "copy" && bc.call != nil && bc.call.Parent() == fn) {
+				if bc.kind == "nil" || (bc.kind == "copy" && bc.call != nil && bc.call.Parent() == bodyFn) {
 					r.add(name, construct, Holds, p.instrPos(s), "body is "+bc.kind)
 				} else {
 					r.add(name, construct, Violated, p.instrPos(s), fmt.Sprintf("the process sent to the monitor has a body that is not a private copy (%s %s): the monitor goroutine reads it while the process mutates it", bc.kind, bc.path))
